@@ -576,6 +576,7 @@ func run(c *vlib.Ctx) {
 	rg := ranges(4)
 	F2 := append(append([][]int{}, s2...), rg...)
 	for _, p := range ps {
+		big := c.Thorough() && p == 4 // the larger families; precision 5 repeats the pair family with the quick triples
 		// singles: every subset up to size 4 and every range
 		for _, a := range append(subsets(universe, 4), rg...) {
 			one(Case{Fam: "single", P: p, A: a}, len(a) > 0)
@@ -594,7 +595,7 @@ func run(c *vlib.Ctx) {
 				one(Case{Fam: "pair", P: p, A: a, B: b}, len(a) > 0 && len(b) > 0)
 			}
 		}
-		if c.Thorough() {
+		if big {
 			for _, a := range exactly(subsets(universe, 4), 4) {
 				if expired("pairs with subsets of size 4") {
 					return
@@ -609,13 +610,13 @@ func run(c *vlib.Ctx) {
 		G := append([][]int{}, subsets(universe, 1)...)
 		for _, r := range rg {
 			l := len(r)
-			if c.Thorough() && r[0]%4 == 0 && (l == 4 || l == 6 || l == 8 || l == 12 || l == 16 || l == 24) {
+			if big && r[0]%4 == 0 && (l == 4 || l == 6 || l == 8 || l == 12 || l == 16 || l == 24) {
 				G = append(G, r)
-			} else if !c.Thorough() && r[0]%8 == 0 && (l == 4 || l == 8 || l == 16 || l == 24) {
+			} else if !big && r[0]%8 == 0 && (l == 4 || l == 8 || l == 16 || l == 24) {
 				G = append(G, r)
 			}
 		}
-		if c.Thorough() {
+		if big {
 			G = append(G, exactly(subsets(10, 2), 2)...)
 		}
 		for _, a := range G {
@@ -674,7 +675,7 @@ func replay(c *vlib.Ctx, raw json.RawMessage) (bool, string) {
 func TestCheck(t *testing.T) {
 	vlib.Main(t, &vlib.Check{
 		ID: "C35", Level: "exploration",
-		Rule: "hll.Plus at precision 4 (thorough: 4 and 5) over a universe of 24 fixed keys. " +
+		Rule: "hll.Plus at precision 4 (thorough: 4 with the larger families below, and 5 with the thorough pair family {size<=3} u {runs} and the quick triple family) over a universe of 24 fixed keys. " +
 			"single: every key subset of size<=4 and every contiguous run of >=4 keys (runs reach the dense representation): marshal->unmarshal keeps Count (two generations), adding every key twice keeps Count, s.Merge(equal sketch) and s.Merge(s) equal s merged into an empty sketch, the unmarshalled copy merges to the same bytes. " +
 			"pair: every unordered pair over {subsets of size<=2} u {runs} (thorough: {size<=3} u {runs}, plus every size-4 subset x the quick family): A.Merge(B) and B.Merge(A) marshal to the same bytes and Count, merging A or B again changes nothing, the result equals the sketch built by adding the union's keys (merged into an empty sketch), B unchanged, round trip of the merged sketch keeps Count. " +
 			"triple: every ordered triple over {subsets of size<=1} u {runs starting at a multiple of 8 with length 4,8,16,24} (thorough: runs starting at a multiple of 4 with length 4,6,8,12,16,24, plus all 2-subsets of the first 10 keys): all 6 merge orders, left and right association, give the bytes of the union's sketch. " +
